@@ -338,6 +338,12 @@ func (s *Sorter) SortedBlocks(ctx context.Context, removedCols map[int]struct{},
 			minRow = r.RemoveFrom(minRow)
 			if pkOK {
 				m := len(blk)
+				if m == 0 {
+					// the block's key is the key of the first row it keeps, not of a
+					// duplicate that is dropped just before
+					blkPK = blkPK[:len(pkIndices)]
+					copy(blkPK, rowPK)
+				}
 				blk = blk[:m+1]
 				if k := len(minRow); k > cap(blk[m]) {
 					blk[m] = make([]byte, k)
@@ -355,10 +361,6 @@ func (s *Sorter) SortedBlocks(ctx context.Context, removedCols map[int]struct{},
 			} else {
 				s.current = s.current[1:]
 				currentBlock = nil
-			}
-			if len(blkPK) == 0 {
-				blkPK = blkPK[:len(pkIndices)]
-				copy(blkPK, rowPK)
 			}
 			if len(blk) == 255 {
 				b := &Block{
